@@ -109,6 +109,10 @@ class Problem:
         self.use_stubs = use_stubs
         t0 = time.time()
         leaves, self.in_tree = jax.tree_util.tree_flatten(args)
+        try:
+            self.paths = [jax.tree_util.keystr(p) for p, _ in jax.tree_util.tree_flatten_with_path(args)[0]]
+        except Exception:
+            self.paths = [f"leaf{i}" for i in range(len(leaves))]
         self.structs = [_leaf_struct(x) for x in leaves]
         self.examples = leaves
 
@@ -269,8 +273,9 @@ class Problem:
         i = next(j for j, o in enumerate(self.obligations) if o[0] == nm)
         _, cname, idx, _ = self.obligations[i]
         flat = self.concrete_args(res["model"]["inputs"])
-        out = {"obligation": nm, "clause": cname, "index": list(idx), "inputs": res["model"]["inputs"],
-               "ext_outcomes": res["model"]["ext"]}
+        out = {"obligation": nm, "clause": cname, "index": list(idx),
+               "inputs": {f"args{p}": v for p, v in zip(self.paths, res["model"]["inputs"])},
+               "ext_outcomes": res["model"]["ext"], "targets": self.targets}
         if cname not in self.post:
             out["confirmed"] = None
             out["note"] = "side obligation (unwinding assertion): no native replay"
